@@ -2323,7 +2323,14 @@ class Transport(threading.Thread, ClosingContextManager):
             except Exception as e:
                 self._log(ERROR, "Unknown exception: " + str(e))
                 self._log(ERROR, util.tb_strings())
-                self.saved_exception = e
+                # an internal error - typically a parser choking on what the
+                # peer sent.  The API reports failures as SSHException; the
+                # original is logged above and kept as the cause.
+                wrapped = SSHException(
+                    "Unexpected error in transport thread: {!r}".format(e)
+                )
+                wrapped.__cause__ = e
+                self.saved_exception = wrapped
             _active_threads.remove(self)
             for chan in list(self._channels.values()):
                 chan._unlink()
